@@ -19,10 +19,12 @@ func C17(c *Ctx) {
 	r.Rule("C17-b", "sliceFrom returns p.data[start.offset:p.pt.offset]; p.data is never stored to")
 	r.Rule("C17-c", "every read() in the terminal matchers is dominated by not-at-EOF (see C01-e)")
 	r.Rule("C17-e", "generator side of 'classes containing U+FFFD match the invalid byte': CharClassMatcher.parse stores every rune it reads (no rune value is skipped), see C03-e")
+	r.Rule("C17-f", "matched values are the original bytes: every successful return of the three terminal matchers yields the slice of the input between the entry position and the position reached (C01-c for the terminals under this property) - not a value derived from the decoded rune, which is U+FFFD for every invalid byte")
 	r.Rule("C17-d", "p.allowInvalidUTF8 is assigned only by the AllowInvalidUTF8 option and read only in read()")
 	abs := c.allAbs()
 	r.Min("semantic variants analysed", 16, len(abs))
 	for _, a := range abs {
+		valueProvenance(c, a, "C17-f", true)
 		v := a.V
 		vn := v.Name
 		c02Read(c, v, "C17-a")
